@@ -395,6 +395,11 @@ def parse_script(script_text, start_line_number=1):
         except BareScriptParserError as error:
             raise BareScriptParserError(error.error, line, error.column_number, start_line_number + ix_line)
 
+    # Dangling line continuation?
+    if line_continuation:
+        line = ' '.join(line_continuation)
+        raise BareScriptParserError('Unterminated line continuation', line, len(line) + 1, start_line_number + ix_line)
+
     # Dangling label definitions?
     if label_defs:
         label_def = label_defs.pop()
